@@ -146,7 +146,11 @@ ReadOnly(r) ==
                                       alone |-> [t \in DOMAIN r.a.ops |-> Alone(r.a.shape, r.a.ops[t]).forms],
                                       seqfiles |-> FilesExpected(r.a.shape, RunSequential(r.a.shape, r.a.ops))]]
              ELSE IF r.ev = "Query"
-                  THEN [ok |-> QueryOK(st, r), expected |-> LET e == EvalQ(st, <<>>, r.a.q) IN [ok |-> e.ok, rows |-> SetToSeq(e.rows)]]
+                  THEN [ok |-> QueryOK(st, r),
+                        expected |-> LET e == EvalQ(st, <<>>, r.a.q)
+                                     IN [ok |-> e.ok, rows |-> SetToSeq(e.rows),
+                                         \* (what kind of target every annotation has: part of a finding's fingerprint)
+                                         kinds |-> [x \in DOMAIN st.anns |-> IF st.anns[x].alive THEN st.anns[x].leaves[1].k ELSE ""]]]
              ELSE IF r.ev = "Parse"
                   THEN [ok |-> ParseOK(r), expected |-> [parse |-> TRUE]]
              ELSE IF r.ev = "WebAnno"
